@@ -508,7 +508,9 @@ func main() {
 			continue
 		}
 		r := root.Fork(uint64(i))
-		if *k2n > 0 && i%*k2n == *k2n-1 {
+		if i%16 == 5 {
+			k3(r, i, o)
+		} else if *k2n > 0 && i%*k2n == *k2n-1 {
 			k2(r, i, o)
 		} else {
 			k1(r, i, o)
